@@ -52,7 +52,7 @@ Lemma scan_min_spec tb m :
 Proof. unfold scan_min. change NumStates with 16%nat.
   apply (fold_seq_inv _ (fun j acc => (fst acc < 16)%nat /\ snd acc = nth (fst acc) m 0 /\
                                       forall s, (s < j)%nat -> snd acc <= nth s m 0)).
-  - cbn [fst snd]. repeat split; [lia|]. intros s Hs. lia.
+  - cbn [fst snd]. repeat split; [apply Nat.mod_upper_bound; discriminate|]. intros s Hs. lia.
   - intros j acc Hj (P1 & P2 & P3). unfold lt_tb.
     destruct (tb_scan tb).
     + destruct (Z.leb_spec (nth j m 0) (snd acc)); cbn [fst snd]; repeat split; try assumption; try reflexivity.
